@@ -686,6 +686,48 @@ def gen_plan(repo="/repo"):
     except Unsupported as e:
         errors.append(f"seek: {e}")
         out.append(f"(* UNSUPPORTED seek: {str(e).replace('*)', '* )')} *)\n")
+    try:
+        # ---- the API layer of FileReader: where a freshly opened reader stands, how long the caller's buffer is taken to be,
+        #      how many items a counted read of nunits units asks for (tied to Model/StreamApi.v)
+        fb = [ast.unparse(x) for x in _method(repo, "sigpyproc/io/fileio.py", "FileBase", "__init__").body]
+        if fb != ["self.files = files", "self.mode = mode", "self.opener = io.FileIO", "self.ifile_cur: int | None = None", "self._open(ifile=0)"]:
+            raise Unsupported("FileBase.__init__ differs from the text Model/StreamApi.v raw_open was written from: " + " | ".join(fb))
+        fi = [ast.unparse(x) for x in _method(repo, "sigpyproc/io/fileio.py", "FileReader", "__init__").body if not (isinstance(x, ast.Expr) and isinstance(x.value, ast.Constant))]
+        head = ["self.sinfo = sinfo", "self.bitsinfo = BitsInfo(nbits)", "filenames = self.sinfo.get_info_list('filename')", "super().__init__(filenames, mode)"]
+        if fi[:4] != head or len(fi) > 5:
+            raise Unsupported("FileReader.__init__: unrecognised statements: " + " | ".join(fi))
+        if len(fi) == 5:
+            m_ = re.fullmatch(r"self\._seek2hdr\((\d+)\)", fi[4])
+            if not m_:
+                raise Unsupported("FileReader.__init__: unrecognised statement after super().__init__: " + fi[4])
+            init_hdr = f"Some {int(m_.group(1))}"
+        else:
+            init_hdr = "None"
+        out.append("(* from FileReader.__init__: the argument of the self._seek2hdr(k) that follows FileBase.__init__ (file 0 opened at raw offset 0), if any *)")
+        out.append(f"Definition reader_init_seek2hdr : option Z := {init_hdr}.\n")
+        tci = ast.unparse(_method(repo, "sigpyproc/io/fileio.py", "FileReader", "creadinto"))
+        for e_ in ["nbytes_read = self.file_obj.readinto(read_buffer_view[nbytes:])", "if nbytes == len(read_buffer_view) or self.eos():",
+                   "return nbytes"]:
+            if e_ not in tci:
+                raise Unsupported("creadinto: expected line not found: " + e_)
+        if "read_buffer_view = memoryview(read_buffer).cast('B')" in tci:
+            vlen = "(itemsize * nitems)"
+        elif "read_buffer_view = memoryview(read_buffer)\n" in tci:
+            vlen = "nitems"
+        else:
+            raise Unsupported("creadinto: the view of the caller's buffer is built in an unrecognised way")
+        out.append("(* from FileReader.creadinto: len(read_buffer_view) for a caller's buffer of nitems items of itemsize bytes *)")
+        out.append(f"Definition creadinto_view_len (itemsize nitems : Z) : Z := {vlen}.\n")
+        tcr = ast.unparse(_method(repo, "sigpyproc/io/fileio.py", "FileReader", "cread"))
+        for e_ in ["count = nunits // self.bitsinfo.bitfact", "if self.bitsinfo.unpack:",
+                   "return unpack(data_ar, self.bitsinfo.nbits, bitorder=self.bitsinfo.bitorder)", "return data_ar"]:
+            if e_ not in tcr:
+                raise Unsupported("cread: expected line not found: " + e_)
+        out.append("(* from FileReader.cread: the number of items of the file's dtype a counted read of nunits units asks for *)")
+        out.append("Definition cread_count (nunits bitfact : Z) : Z := (nunits / bitfact).\n")
+    except Unsupported as e:
+        errors.append(f"reader api: {e}")
+        out.append(f"(* UNSUPPORTED reader api: {str(e).replace('*)', '* )')} *)\n")
     return "\n".join(out), errors
 
 
